@@ -261,7 +261,9 @@ func init() {
 		// far-away and extreme timestamps: the client's clock is set to each of them, a fresh packet is
 		// captured, and the server (on the real clock) must treat it as outside the window
 		for _, ts := range []int64{0, 1, -1, stamp - 86400*365, stamp + 86400*365, stamp - 86400*365*291, stamp - 86400*365*293, stamp - 86400*365*1000, stamp + 86400*365*293,
-			math.MaxInt64, math.MinInt64, math.MaxInt64 - 1, math.MinInt64 + 1, 1 << 62, -(1 << 62), math.MaxInt32, math.MinInt32, int64(math.MaxUint32)} {
+			math.MaxInt64, math.MinInt64, math.MaxInt64 - 1, math.MinInt64 + 1, 1 << 62, -(1 << 62), math.MaxInt32, math.MinInt32, int64(math.MaxUint32),
+			// the same reading of the clock in another 2^32-second (136-year) or 2^16 / 2^48-second epoch: equal low bits, different timestamp
+			stamp + 1<<32, stamp - 1<<32, stamp + 2<<32, stamp - 3<<32, stamp + 1<<48, stamp - 1<<48, stamp + 1<<16, stamp - 1<<16, stamp + 1<<31, stamp + 1<<40, stamp ^ (1 << 35)} {
 			cs2 := cs
 			cs2.AbsClock = ts
 			cs2.UseAbsClock = true
@@ -604,6 +606,8 @@ func init() {
 			{Scenario: "panel.staleauth", Params: vx.P("change", "expire"), Bound: 2, BudgetS: 100, Weight: 4},
 			{Scenario: "panel.staleauth", Params: vx.P("change", "delete"), Bound: 2, BudgetS: 100, Weight: 4},
 			{Scenario: "auth.second", Params: vx.P("transport", "cdn"), Weight: 3},
+			// "the user-management API is reachable only with the admin UID and session id 0" (C18's driver over a real admin session)
+			{Scenario: "adminapi.session", Params: vx.P("slow", "0"), Weight: 2},
 			// a State built by InitState: which UIDs and proxy methods each configuration admits
 			{Scenario: "auth.initstate", Weight: 2},
 			// forgeries that need no key: small-order ephemeral points sealed under the secret they force
